@@ -29,6 +29,7 @@ func (e *engine) Run(env *core.Env, run int, res *core.Result) *core.Violation {
 	if v := env.ParamInt("events", 0); v > 0 {
 		cfg.Events = v
 	}
+	cfg.LenientSync = env.ParamInt("lenient_sync", 0) != 0
 	tape := core.NewGenTape(tr)
 	body, _ := json.Marshal(cfg)
 	c := &core.Case{Property: prop, Engine: "e3", Seed: env.Seed, Run: run, Profile: "gen", Body: body, ReplayExact: true}
